@@ -7,6 +7,7 @@ package main
 import (
 	"bytes"
 	"crypto/x509"
+	"encoding/asn1"
 	"errors"
 	"fmt"
 	"sort"
@@ -855,7 +856,59 @@ func main() {
 		}
 	}
 	run.Extra("distinct_certificates_built", f.NumCerts())
+	run.Extra("side_probe_malformed_sid", probeMalformedSID(f))
 	run.Finish()
+}
+
+// probeMalformedSID is informational (not part of C32, which is about what is
+// accepted): a version-1 signer info whose SID is SEQUENCE { issuer of a voter,
+// OCTET STRING } is accepted by DecodeSignedTRC; FindCertificate then compares
+// a nil serial number. Reported in stats.json as "panics" / "rejected".
+func probeMalformedSID(f *trcgen.Factory) string {
+	t := trcgen.GenTRC(vgen.NewRand(7), 1, true, trcgen.Shape{Sens: 1, Reg: 1, Root: 1}, 0)
+	real, abs := f.BuildTRC(t)
+	raw, err := real.Encode()
+	if err != nil {
+		return "probe not built: " + err.Error()
+	}
+	var voter Cert
+	for _, c := range abs.Certs {
+		if classOf(c) == 1 {
+			voter = c
+		}
+	}
+	si := f.BuildSI(signerFor(voter), raw)
+	var sid struct {
+		Issuer asn1.RawValue
+		Serial asn1.RawValue
+	}
+	if _, err := asn1.Unmarshal(si.SID.FullBytes, &sid); err != nil {
+		return "probe not built: " + err.Error()
+	}
+	der, err := asn1.Marshal(struct {
+		Issuer asn1.RawValue
+		Serial []byte
+	}{sid.Issuer, []byte{1}})
+	if err != nil {
+		return "probe not built: " + err.Error()
+	}
+	if _, err := asn1.Unmarshal(der, &si.SID); err != nil {
+		return "probe not built: " + err.Error()
+	}
+	signed := cppki.SignedTRC{TRC: real, SignerInfos: []protocol.SignerInfo{si}}
+	signed.TRC.Raw = raw
+	if enc, err := signed.Encode(); err == nil {
+		if dec, err := cppki.DecodeSignedTRC(enc); err == nil {
+			signed = dec
+		} else {
+			return "rejected by DecodeSignedTRC"
+		}
+	}
+	var verr error
+	if p, msg := vgen.Recover(func() { verr = signed.Verify(nil) }); p {
+		return "SignedTRC.Verify panics: " + msg
+	}
+	return fmt.Sprint("rejected: ", verr)
 }
 
 func contains2(xs []string, x string) bool {
